@@ -503,16 +503,56 @@ func checkC10(w *World, r *Report) {
 	r.check(derefCtx, "C10.ctx", deref, "select on the caller's context", deref.Pos(), "<-ctx.Done() of Deref's own context parameter", "Deref does not wait on its caller's context")
 
 	// done-before-deliver
-	var doneStores []*ssa.Store
+	// events that make future-done? true: a store Done = true, or a call of a function of the package that
+	// performs such a store on every path to its return
+	var doneStores []ssa.Instruction
 	var sends []*ssa.Send
+	isDoneStore := func(in ssa.Instruction) bool {
+		x, ok := in.(*ssa.Store)
+		if !ok {
+			return false
+		}
+		if fa, ok := x.Addr.(*ssa.FieldAddr); ok && fieldName(fa.X.Type(), fa.Field) == "Done" {
+			if c, ok := x.Val.(*ssa.Const); ok && c.Value != nil && c.Value.Kind() == constant.Bool && constant.BoolVal(c.Value) {
+				return true
+			}
+		}
+		return false
+	}
+	setsDone := func(fn *ssa.Function) bool {
+		if fn == nil || len(fn.Blocks) == 0 || fn.Pkg != body.Pkg {
+			return false
+		}
+		for _, b := range fn.Blocks {
+			for _, in := range b.Instrs {
+				if !isDoneStore(in) {
+					continue
+				}
+				all := true
+				for _, rb := range fn.Blocks {
+					if len(rb.Instrs) > 0 && rb != fn.Recover {
+						if _, isRet := rb.Instrs[len(rb.Instrs)-1].(*ssa.Return); isRet && !b.Dominates(rb) {
+							all = false
+						}
+					}
+				}
+				if all {
+					return true
+				}
+			}
+		}
+		return false
+	}
 	for _, b := range body.Blocks {
 		for _, in := range b.Instrs {
 			switch x := in.(type) {
 			case *ssa.Store:
-				if fa, ok := x.Addr.(*ssa.FieldAddr); ok && fieldName(fa.X.Type(), fa.Field) == "Done" {
-					if c, ok := x.Val.(*ssa.Const); ok && c.Value != nil && constant.BoolVal(c.Value) {
-						doneStores = append(doneStores, x)
-					}
+				if isDoneStore(x) {
+					doneStores = append(doneStores, x)
+				}
+			case *ssa.Call:
+				if setsDone(x.Call.StaticCallee()) {
+					doneStores = append(doneStores, x)
 				}
 			case *ssa.Send:
 				sends = append(sends, x)
@@ -525,7 +565,7 @@ func checkC10(w *World, r *Report) {
 		for _, d := range doneStores {
 			if d.Block() == s.Block() {
 				for _, in := range s.Block().Instrs {
-					if in == ssa.Instruction(d) {
+					if in == d {
 						ok = true
 						break
 					}
@@ -794,6 +834,9 @@ func checkC11(w *World, r *Report) {
 // enclosing function, through local cells (all stores must derive), captured
 // variables and context.With{Cancel,Timeout,Deadline,Value} calls. ok=false if any
 // source is context.Background()/TODO(), nil, or unknown.
+// ctxParamArgs: set by the evaluator model; the arguments a helper's parameter stands for.
+var ctxParamArgs func(p *ssa.Parameter) []ssa.Value
+
 func ctxDerivation(e *Engine, v ssa.Value, seen map[ssa.Value]bool) ([]*ssa.Call, bool) {
 	if seen[v] {
 		return nil, true
@@ -801,6 +844,20 @@ func ctxDerivation(e *Engine, v ssa.Value, seen map[ssa.Value]bool) ([]*ssa.Call
 	seen[v] = true
 	switch x := v.(type) {
 	case *ssa.Parameter:
+		if ctxParamArgs != nil && isContext(x.Type()) {
+			// the context parameter of an evaluation helper stands for the arguments at its call sites
+			if args := ctxParamArgs(x); len(args) > 0 {
+				var all []*ssa.Call
+				for _, a := range args {
+					w, ok := ctxDerivation(e, a, seen)
+					if !ok {
+						return nil, false
+					}
+					all = append(all, w...)
+				}
+				return all, true
+			}
+		}
 		return nil, isContext(x.Type())
 	case *ssa.Extract:
 		if c, ok := x.Tuple.(*ssa.Call); ok && x.Index == 0 {
